@@ -186,3 +186,22 @@ graph_instances! {
     x_c05_g2_chain_order => g2_chain_order();
     x_c08_g2_cycle_terminates => g2_cycle_terminates();
 }
+
+// ---- recorder for DepsGraph::insert_asset (C05.K8) -------------------------------------------------------------------------
+pub(crate) static mut INSERT_CALLS: u8 = 0;
+pub(crate) static mut INSERT_ID0: u8 = 0;
+pub(crate) static mut INSERT_TY_IS_A: bool = false;
+pub(crate) static mut INSERT_NDEPS: usize = 0;
+pub(crate) static mut INSERT_HAS_FILE_AND_DIR: bool = false;
+pub(crate) fn insert_asset_rec(_this: &mut DepsGraph, asset_key: OwnedKey, deps: crate::hot_reloading::records::Dependencies, typ: Type) {
+    use crate::hot_reloading::records::amv_h::{count, dep_dir, dep_file, has};
+    unsafe {
+        INSERT_CALLS += 1;
+        INSERT_ID0 = asset_key.id.as_bytes()[0];
+        INSERT_TY_IS_A = tid_eq(asset_key.type_id, tid(0)) && tid_eq(typ.type_id, tid(0));
+        INSERT_NDEPS = count(&deps);
+        INSERT_HAS_FILE_AND_DIR = has(&deps, &dep_file("a", "x")) && has(&deps, &dep_dir("d"));
+    }
+    std::mem::forget(deps);
+    std::mem::forget(asset_key);
+}
